@@ -50,6 +50,30 @@ def mu_structs(ctx):
             ctx.facts.walk_type(f["ty"], v)
             if hit:
                 out.setdefault(path, []).append(f["name"])
+    base_direct = {k: list(v) for k, v in out.items()}
+    # a buffer wrapped in a private helper struct of its own (`output: OutputBuffer<T>` with `slots: Box<[MaybeUninit<T>]>`
+    # inside): the structs that embed the wrapper are the buffer owners (their impls -- with the wrapper's helper methods read
+    # through -- poll, write, convert and release), named by the field that holds the wrapper
+    for _ in range(3):
+        moved = False
+        for base in list(out):
+            owners = {}
+            for path, adt in ctx.facts.adts.items():
+                if adt["kind"] != "struct" or path == base:
+                    continue
+                for f in adt["variants"][0]["fields"]:
+                    if f["ty"] == base or f["ty"].startswith(base + "<"):
+                        owners.setdefault(path, []).append(f["name"])
+            has_drop = any(i["trait"] == "core::ops::Drop" and re.match(re.escape(base) + r"(<|$)", i["self_ty"]) for i in ctx.facts.impls)
+            if owners and not has_drop:
+                del out[base]
+                for o_, fs_ in owners.items():
+                    out.setdefault(o_, [])
+                    out[o_] += [x for x in fs_ if x not in out[o_]]
+                moved = True
+        if not moved:
+            break
+    mu_structs.base = base_direct
     return out
 
 
@@ -231,6 +255,12 @@ def r7_2(ctx, R, mus):
                         conv.append((bb, fl.call_expr(t, bb), "assume_init"))
                     if callee_matches(fn, r"core::intrinsics::transmute$|core::mem::transmute$"):
                         conv.append((bb, fl.call_expr(t, bb), "transmute"))
+                    if re.search(r"<impl \*(mut|const) T>::cast(_mut|_const)?$", fn["def"]) and t["args"]:
+                        a0 = t["args"][0]
+                        fr_ = a0["place"]["ty"] if a0["k"] != "const" else a0.get("ty", "")
+                        to_ = t["dest"]["ty"] if "ty" in t["dest"] else b.locals[t["dest"]["l"]]
+                        if "MaybeUninit" in fr_ and "MaybeUninit" not in to_:
+                            conv.append((bb, fl.call_expr(t, bb), "cast"))
             for bb, e, kind in conv:
                 n += 1
                 drains = [(dbb, dt) for dbb, dt, dk in drain_sites_in(ctx, R, b, vac)]
@@ -250,6 +280,30 @@ def r7_2(ctx, R, mus):
                        under_none and taken, b.loc(bb), "under Ready(None)=%s, operand moved out by mem::replace=%s: %s" % (
                            under_none, taken, expr_str(e)))
     ctx.floor("R7.2", "conversions", n, 2)
+    # a Vec rebuilt from the raw parts of the taken buffer: length and capacity are the length of THAT buffer (a length taken
+    # from anywhere else -- the queue's capacity, a constant -- describes elements the buffer may no longer hold)
+    for sp, fields in mus.items():
+        for b in impl_fns_of(ctx, sp):
+            fl = ctx.flow(b)
+            for bb, t, fn in direct_sites(b, r"alloc::vec::Vec::<.*>::from_raw_parts$"):
+                pe_, le_, ce_ = [fl.operand_expr(a) for a in t["args"][:3]]
+                takes = [c for c in expr_calls(pe_) if re.search(RE_REPLACE, c[1] or "") and field_of(strip_refs(c[2][0])) and field_of(strip_refs(c[2][0]))[1:] in fields]
+
+                def is_buf_len(x):
+                    x = strip_refs(x)
+                    if x[0] == "call" and re.search(r"core::slice::<impl \[T\]>::len$", x[1] or "") and x[2]:
+                        rc = strip_refs(x[2][0])
+                        f_ = field_of(rc)
+                        if f_ and f_[1:] in fields:
+                            # read from the field: before the take
+                            return bool(takes) and all(b.dominates(x[3], tk[3]) and x[3] != tk[3] for tk in takes)
+                        return any(tk in expr_calls(rc) or rc == tk for tk in takes)
+                    if x[0] == "ptrmeta" or (x[0] == "unop" and x[1] == "PtrMetadata"):
+                        return any(tk in expr_calls(x) for tk in takes)
+                    return False
+                ok = bool(takes) and is_buf_len(le_) and (ce_ == le_ or is_buf_len(ce_))
+                ctx.ob("R7.2", b, "from_raw_parts-lengths-are-the-taken-buffer's@%s" % _site_label(b, bb), ok, b.loc(bb),
+                       "len=%s cap=%s" % (expr_str(le_)[:80], expr_str(ce_)[:80]))
 
 
 def r7_3(ctx, R, mus):
@@ -275,6 +329,9 @@ def r7_3(ctx, R, mus):
                 det = ""
                 if len(qs) == 1 and len(bufs) == 1:
                     q, buf = qs[0], bufs[0]
+                    # the buffer inside its wrapper struct (`OutputBuffer { slots }` built by an inlined constructor)
+                    while buf[0] == "agg" and len(buf) > 3 and len(buf[2]) == 1 and buf[1].rsplit("::", 1)[0] in ctx.facts.adts:
+                        buf = buf[2][0]
                     q_from_iter = q[0] == "call" and "FromIterator" in (q[1] or "")
                     if buf[0] == "call" and (buf[1] or "").endswith("into_boxed_slice"):
                         vec = buf[2][0]
@@ -295,6 +352,13 @@ def r7_3(ctx, R, mus):
                             it = x[2][0]
                             while it[0] == "call" and re.search(r"::(map|into_iter)$", it[1] or "") and it[2]:
                                 it = strip_refs(it[2][0])
+                            if it[0] == "call" and re.search(r"core::iter::Iterator::take$", it[1] or "") and len(it[2]) == 2:
+                                # repeat_with(MaybeUninit::uninit).take(capacity(queue)).collect()
+                                gen, ln = strip_refs(it[2][0]), it[2][1]
+                                if gen[0] == "call" and re.search(r"core::iter::(repeat_with|repeat|from_fn)$", gen[1] or "") and \
+                                        ln[0] == "call" and (ln[1] or "").endswith("::capacity") and strip_refs(ln[2][0]) == q:
+                                    ok = q_from_iter
+                                    det = "buffer = collect of an endless generator cut at %s of the stored queue; queue from FromIterator=%s" % (expr_str(ln), q_from_iter)
                             if it[0] == "agg" and it[1].endswith("Range::Range") and it[2][0][0] == "const" and it[2][0][2] == "0":
                                 ln = it[2][1]
                                 if ln[0] == "call" and (ln[1] or "").endswith("::capacity") and strip_refs(ln[2][0]) == q:
